@@ -4,8 +4,10 @@ import PsModel.Lemmas.C14
 
 `run cfg ops` is the state of `function.py`'s registries after the atomic steps `ops` (any number of tasks, any
 interleaving of task creation, body segments, `task.add_done_callback` / `remove_done_callback` / `task.cancel` /
-`task.unique`, reaper deliveries, and the step-by-step `finally` of `run_coro`); `cfg.cbContinues = false`
-(`current`) is the code as it is.  Theorems over `run cfg ops` are proved by induction over `ops`.
+`task.unique`, reaper deliveries, and the step-by-step `finally` of `run_coro`).  `current` is the code as it is now
+(after the `fix:` commits e4231d2, 83f57a2, f683cd7, 48c341a, a0b69d9 of /repo), `preFix` the code before them; the
+`_regress_` theorems show that the pre-fix configuration reproduces the fixed defects and the current one does not.
+Theorems over `run cfg ops` are proved by induction over `ops`.
 -/
 namespace PsModel.C14
 open PsModel.C13 (Task upd upd_same upd_other upd_apply MapsInv)
@@ -15,7 +17,7 @@ variable {κ : Type} [DecidableEq κ]
 
 /-- everything the model knows about one task -/
 def view (s : St κ) (b : Task) :=
-  (s.phase b, s.outcome b, s.result b, s.cb b, s.hctx b, s.idx b, s.loopDone b, s.leaked b,
+  (s.phase b, s.outcome b, s.result b, s.cb b, s.hctx b, s.idx b, s.loopDone b, s.leaked b, s.bailed b,
    s.u.ours b, s.u.live b, s.u.names b, s.u.entry b, s.u.cancelReq b, s.u.parked b)
 
 /-- **Independence.**  Whatever happens in the life cycle of task `a` – its start, its body returning, raising or being
@@ -37,10 +39,19 @@ theorem C14_independent (cfg : Cfg) (s : St κ) (op : Op κ) (a b : Task)
     · split
       · split <;> simp [upd_other _ _ _ _ hb]
       · simp [upd_other _ _ _ _ hb]
-  have habort : ∀ (s : St κ) (r : Res), view (abort s a r) b = view s b ∧ ranOf (abort s a r) b = ranOf s b ∧
-      (abort s a r).u.reaperQ = s.u.reaperQ := by
+  have hfinish : ∀ (s : St κ) (r : Res), view (finish s a r) b = view s b ∧ ranOf (finish s a r) b = ranOf s b ∧
+      (finish s a r).u.reaperQ = s.u.reaperQ := by
     intro s r
-    simp [abort, view, ranOf, upd_other _ _ _ _ hb]
+    obtain ⟨e1, e2, e3, e4, e5, e6, e7⟩ := hexit s.u
+    exact ⟨by simp [finish, view, upd_other _ _ _ _ hb, e1, e2, e3, e4, e5, e6], rfl, e7⟩
+  have habort : ∀ (s : St κ) (r : Res), view (bail cfg s a r) b = view s b ∧ ranOf (bail cfg s a r) b = ranOf s b ∧
+      (bail cfg s a r).u.reaperQ = s.u.reaperQ := by
+    intro s r
+    unfold bail
+    split
+    · obtain ⟨x1, x2, x3⟩ := hfinish { s with bailed := upd s.bailed a (some r) } r
+      exact ⟨x1.trans (by simp [view, upd_other _ _ _ _ hb]), x2.trans rfl, x3⟩
+    · simp [abort, view, ranOf, upd_other _ _ _ _ hb]
   cases op with
   | create t wc pre => simp [lifecycleOf] at hop
   | addCb x t c args => simp [lifecycleOf] at hop
@@ -84,14 +95,12 @@ theorem C14_independent (cfg : Cfg) (s : St κ) (op : Op κ) (a b : Task)
       · split
         · exact ⟨rfl, rfl, rfl⟩
         · split
-          · exact ⟨rfl, rfl, rfl⟩
+          · exact habort s _
           · split
-            · exact habort s _
-            · split
-              · exact ⟨rfl, rfl, rfl⟩
-              · rename_i c a' _
-                refine ⟨by simp [view, upd_other _ _ _ _ hb], ?_, rfl⟩
-                rw [ranOf_append s t b c a' _ rfl]; simp [hb]
+            · exact ⟨rfl, rfl, rfl⟩
+            · rename_i c a' _
+              refine ⟨by simp [view, upd_other _ _ _ _ hb], ?_, rfl⟩
+              rw [ranOf_append s t b c a' _ rfl]; simp [hb]
   | cbEnd t r =>
     simp only [lifecycleOf, Option.some.injEq] at hop; subst hop
     simp only [step, cbEndStep]
@@ -120,15 +129,15 @@ theorem C14_independent (cfg : Cfg) (s : St κ) (op : Op κ) (a b : Task)
         · exact ⟨rfl, rfl, rfl⟩
         · split
           · exact habort s _
-          · obtain ⟨e1, e2, e3, e4, e5, e6, e7⟩ := hexit s.u
-            exact ⟨by simp [view, upd_other _ _ _ _ hb, e1, e2, e3, e4, e5, e6], rfl, e7⟩
+          · exact hfinish s _
 
-/-- **Callbacks, safety part (all schedules, all faults).**  As long as nobody adds/removes callbacks of a task whose
-`finally` is already running, the callbacks that ran for it are a prefix of its callback list at the end of its body –
-registration order, latest arguments, removed ones never, and (the keys being distinct) no function twice. -/
+/-- **Callbacks, safety part (all schedules, all faults, every configuration).**  The callbacks that ran for a task are a
+prefix of its callback list at the end of its body – registration order, latest arguments, removed ones never, and
+(the keys being distinct) no function twice.  With the repaired snapshot iteration this needs no proviso; with the
+pre-fix live-dict iteration it holds as long as nobody adds/removes callbacks of a task whose `finally` already runs. -/
 theorem C14_callbacks_prefix (cfg : Cfg) (ops : List (Op κ)) (t : Task)
     (hp : (run cfg ops).phase t = .finalizing ∨ (run cfg ops).phase t = .done)
-    (ht : (run cfg ops).touched t = false) :
+    (ht : cfg.snapshotIter = true ∨ (run cfg ops).touched t = false) :
     ranOf (run cfg ops) t = (specRan (run cfg ops) t).take ((run cfg ops).idx t) ∧
     ((specRan (run cfg ops) t).map (·.1)).Nodup :=
   ⟨((invC_run cfg ops).ran t hp ht).1, (invC_run cfg ops).atEndKeys t⟩
@@ -139,25 +148,27 @@ theorem C14_callbacks_not_early (cfg : Cfg) (ops : List (Op κ)) (t : Task)
     ranOf (run cfg ops) t = [] :=
   (invC_run cfg ops).pre t hp
 
-/-- **Callbacks, exactly once – the fragment on which the code delivers it.**  For a finished task whose `finally`
-was not aborted and whose callback dict was not modified while it ran: with the code as it is (`cbContinues = false`)
-every callback ran exactly once *provided none of them raised*; with the repaired loop no proviso is needed. -/
+/-- **Callbacks, exactly once – for every configuration.**  A finished task whose callback loop was not left by an
+exception ran every callback exactly once, provided (pre-fix `break` only) none of them raised and (pre-fix live-dict
+iteration only) its dict was not modified while its `finally` ran. -/
 theorem C14_callbacks_partial (cfg : Cfg) (ops : List (Op κ)) (t : Task)
-    (hd : (run cfg ops).phase t = .done) (hl : (run cfg ops).leaked t = false)
-    (ht : (run cfg ops).touched t = false)
+    (hd : (run cfg ops).phase t = .done) (hb : (run cfg ops).bailed t = none)
+    (ht : cfg.snapshotIter = true ∨ (run cfg ops).touched t = false)
     (hr : cfg.cbContinues = true ∨ (run cfg ops).cbRaised t = false) :
     ranOf (run cfg ops) t = specRan (run cfg ops) t := by
   have hc := invC_run cfg ops
   obtain ⟨a, _⟩ := hc.ran t (Or.inr hd) ht
-  have := hc.full t hd ht hl hr
+  have := hc.full t hd ht hb hr
   rw [a, this]; exact List.take_length
 
-/-- the same for the code as it is -/
+/-- **Callbacks, exactly once – the code as it is now.**  Every finished task ran each callback registered at the end
+of its body exactly once, in order, with its latest arguments – whether or not callbacks raised or (de)registered
+callbacks meanwhile – unless a cancellation was delivered inside one of its callbacks (`bailed`, see
+`C14_cancel_inside_callback`). -/
 theorem C14_callbacks_current (ops : List (Op κ)) (t : Task)
-    (hd : (run current ops).phase t = .done) (hl : (run current ops).leaked t = false)
-    (ht : (run current ops).touched t = false) (hr : (run current ops).cbRaised t = false) :
+    (hd : (run current ops).phase t = .done) (hb : (run current ops).bailed t = none) :
     ranOf (run current ops) t = specRan (run current ops) t :=
-  C14_callbacks_partial current ops t hd hl ht (Or.inr hr)
+  C14_callbacks_partial current ops t hd hb (Or.inl rfl) (Or.inl rfl)
 
 /-- **One entry per callback function, replaceable, removable** (`dict[callback] = …`, `dict.pop(callback)`). -/
 theorem C14_callback_table (l : List (Cb × Args)) (c : Cb) (a a' : Args) (h : (l.map (·.1)).Nodup) :
@@ -186,47 +197,18 @@ theorem C14_callback_table (l : List (Cb × Args)) (c : Cb) (a a' : Args) (h : (
       · simp [e, setCb, ih]
   · intro p hp; exact (List.mem_filter.1 hp).1
 
-/-- **Witness (#19): the first of two callbacks raises – the second never runs**, although the task ends cleanly. -/
-theorem C14_cex_callback_raises_skips_rest :
-    let s := run current [.create 0 true true, .start 0, .addCb 0 0 1 10, .addCb 0 0 2 20,
-                          .endBody 0 (.ok 5), .cbBegin 0, .cbEnd 0 .raises, .cleanup 0, (.cbBegin 0 : Op Nat)]
-    s.phase 0 = .done ∧ s.leaked 0 = false ∧ s.touched 0 = false ∧
-    specRan s 0 = [(1, 10), (2, 20)] ∧ ranOf s 0 = [(1, 10)] ∧ s.result 0 = some (.value 5) := by
-  decide
-
-/-- with the repaired loop the same run executes both -/
-theorem C14_repaired_runs_both :
-    let s := run { cbContinues := true } [.create 0 true true, .start 0, .addCb 0 0 1 10, .addCb 0 0 2 20,
-                          .endBody 0 (.ok 5), .cbBegin 0, .cbEnd 0 .raises, .cbBegin 0, .cbEnd 0 .ok, (.cleanup 0 : Op Nat)]
-    s.phase 0 = .done ∧ ranOf s 0 = [(1, 10), (2, 20)] := by
-  decide
-
-/-- **Witness: a cancellation delivered inside a done-callback leaves the `finally`**: the task stays in `our_tasks`,
-`task2cb`, `task2context`, keeps its unique name, its second callback never runs, and its result (the body had returned
-5) is lost. -/
-theorem C14_cex_cancel_during_callback_leaks_registries :
-    let s := run current [.create 0 true true, .start 0, .storeCtx 0, .unique 0 7 false, .addCb 0 0 1 10,
-                          .addCb 0 0 2 20, .endBody 0 (.ok 5), .cbBegin 0, .create 1 true true, .start 1,
-                          .cancel 1 (some 0), .reap, (.cbEnd 0 .cancelled : Op Nat)]
-    s.phase 0 = .done ∧ s.leaked 0 = true ∧ s.u.ours 0 = true ∧ s.cb 0 ≠ none ∧ s.hctx 0 = true ∧
-    s.u.owner 7 = some 0 ∧ ranOf s 0 = [(1, 10)] ∧ s.result 0 = some .cancelled ∧ s.u.cancelReq 0 = true := by
-  decide
-
-/-- **Witness: a done-callback that registers another callback on its own task** makes the dict iterator raise
-`RuntimeError`; the remaining callback is skipped, nothing is cleaned and the task ends with that error. -/
-theorem C14_cex_callback_mutates_dict_leaks :
-    let s := run current [.create 0 true true, .start 0, .addCb 0 0 1 10, .addCb 0 0 2 20, .endBody 0 (.ok 5),
-                          .cbBegin 0, .addCb 0 0 3 30, .cbEnd 0 .ok, (.cbBegin 0 : Op Nat)]
-    s.phase 0 = .done ∧ s.leaked 0 = true ∧ s.u.ours 0 = true ∧ s.cb 0 ≠ none ∧
-    ranOf s 0 = [(1, 10)] ∧ s.result 0 = some .error := by
-  decide
-
-/-- **Clean-up (the fragment on which it holds).**  A finished task whose `finally` was not aborted is in no registry
-and owns no unique name – for every schedule. -/
+/-- **Clean-up, every configuration.**  A finished task whose clean-up was not skipped is in no registry and owns no
+unique name; with `cleanupAlways` (the repaired code) the clean-up is never skipped. -/
 theorem C14_cleanup_partial (cfg : Cfg) (ops : List (Op κ)) (t : Task)
-    (hd : (run cfg ops).phase t = .done) (hl : (run cfg ops).leaked t = false) :
+    (hd : (run cfg ops).phase t = .done) (hl : cfg.cleanupAlways = true ∨ (run cfg ops).leaked t = false) :
     Clean (run cfg ops) t := by
   have h := invR_run cfg ops
+  have hl : (run cfg ops).leaked t = false := by
+    rcases hl with e | e
+    · cases hk : (run cfg ops).leaked t with
+      | false => rfl
+      | true => have := ((invL_run cfg ops).leak t hk).1; rw [e] at this; cases this
+    · exact e
   have hnl : ¬ Live (run cfg ops) t := by unfold Live; rw [hd]; simp
   have no : ∀ {p : Prop}, (p → Live (run cfg ops) t ∨ (run cfg ops).leaked t = true) → ¬ p := by
     intro p f hp
@@ -251,29 +233,58 @@ theorem C14_cleanup_partial (cfg : Cfg) (ops : List (Op κ)) (t : Task)
     intro k hk
     exact hown k (h.maps.names_own k t hk)
 
-/-- …and the `finally` is only ever aborted by one of two things: a cancellation delivered inside a callback, or the
-callback dict of the task being modified while its `finally` runs. -/
-theorem C14_leak_causes (cfg : Cfg) (ops : List (Op κ)) (t : Task) (hl : (run cfg ops).leaked t = true) :
-    (run cfg ops).phase t = .done ∧
-    ((run cfg ops).touched t = true ∨ (run cfg ops).result t = some .cancelled) :=
-  invL_run cfg ops t hl
+/-- **Clean-up – the code as it is now: every finished task**, however it ended (returned, raised, cancelled in its
+body or inside a done-callback), is in no registry and owns no unique name. -/
+theorem C14_cleanup (ops : List (Op κ)) (t : Task) (hd : (run current ops).phase t = .done) :
+    Clean (run current ops) t :=
+  C14_cleanup_partial current ops t hd (Or.inl rfl)
 
-/-- **Quiescence.**  For every step sequence after which every task that was ever created has finished without an
-aborted `finally`, all registries are empty. -/
-theorem C14_quiescent_empty (cfg : Cfg) (ops : List (Op κ))
-    (hq : ∀ t, ((run cfg ops).phase t = .none ∨ (run cfg ops).phase t = .done) ∧ (run cfg ops).leaked t = false) :
+/-- **Regression statement about the pre-fix shape**: the clean-up can only be skipped without the inner
+`try … finally` (`cleanupAlways = false`), and then only by a cancellation delivered inside a callback or by the
+callback dict of the task being modified while its `finally` runs. -/
+theorem C14_regress_leak_causes (cfg : Cfg) (ops : List (Op κ)) (t : Task) (hl : (run cfg ops).leaked t = true) :
+    cfg.cleanupAlways = false ∧ (run cfg ops).phase t = .done ∧
+    ((run cfg ops).touched t = true ∨ (run cfg ops).result t = some .cancelled) := by
+  have h := invL_run cfg ops
+  obtain ⟨a, b, c⟩ := h.leak t hl
+  refine ⟨a, b, ?_⟩
+  cases hb : (run cfg ops).bailed t with
+  | none => exact absurd hb c
+  | some r =>
+    obtain ⟨_, e, f⟩ := h.bail t r hb
+    rcases f with f | ⟨_, f, _⟩
+    · subst f; exact Or.inr e
+    · exact Or.inl f
+
+/-- the code as it is now never skips a clean-up -/
+theorem C14_never_leaks (ops : List (Op κ)) (t : Task) : (run current ops).leaked t = false := by
+  cases hk : (run current ops).leaked t with
+  | false => rfl
+  | true => have := ((invL_run current ops).leak t hk).1; cases this
+
+/-- **Quiescence, every configuration**: all created tasks finished and no clean-up skipped ⇒ all registries empty. -/
+theorem C14_quiescent_empty_partial (cfg : Cfg) (ops : List (Op κ))
+    (hq : ∀ t, (run cfg ops).phase t = .none ∨ (run cfg ops).phase t = .done)
+    (hl : cfg.cleanupAlways = true ∨ ∀ t, (run cfg ops).leaked t = false) :
     (∀ t, (run cfg ops).u.ours t = false ∧ (run cfg ops).cb t = none ∧ (run cfg ops).hctx t = false ∧
           (run cfg ops).u.entry t = false ∧ (run cfg ops).u.names t = []) ∧
     (∀ k, (run cfg ops).u.owner k = none) := by
   have h := invR_run cfg ops
+  have hl : ∀ t, (run cfg ops).leaked t = false := by
+    intro t
+    rcases hl with e | e
+    · cases hk : (run cfg ops).leaked t with
+      | false => rfl
+      | true => have := ((invL_run cfg ops).leak t hk).1; rw [e] at this; cases this
+    · exact e t
   have hnl : ∀ t, ¬ Live (run cfg ops) t := by
     intro t hl
-    rcases (hq t).1 with e | e <;> (unfold Live at hl; rw [e] at hl; simp at hl)
+    rcases hq t with e | e <;> (unfold Live at hl; rw [e] at hl; simp at hl)
   have no : ∀ t {p : Prop}, (p → Live (run cfg ops) t ∨ (run cfg ops).leaked t = true) → ¬ p := by
     intro t p f hp
     rcases f hp with a | a
     · exact hnl t a
-    · rw [(hq t).2] at a; cases a
+    · rw [hl t] at a; cases a
   have hentry : ∀ t, (run cfg ops).u.entry t = false := fun t => C13.not_true_false (no t (h.entry t))
   have hown : ∀ k, (run cfg ops).u.owner k = none := by
     intro k
@@ -289,35 +300,102 @@ theorem C14_quiescent_empty (cfg : Cfg) (ops : List (Op κ))
     | some l =>
       have : (run cfg ops).cb t ≠ none := by rw [hc]; simp
       rcases h.cb t this with a | a | a
-      · rcases (hq t).1 with e | e <;> (rw [e] at a; cases a)
+      · rcases hq t with e | e <;> (rw [e] at a; cases a)
       · exact absurd a (hnl t)
-      · rw [(hq t).2] at a; cases a
+      · rw [hl t] at a; cases a
   · apply List.eq_nil_iff_forall_not_mem.2
     intro k hk
     have := h.maps.names_own k t hk
     rw [hown k] at this; cases this
 
-/-- **Result.**  A task whose `finally` completed finishes with the outcome of its body: `ok v` ↦ `v`, an exception ↦
-logged and `None`, cancelled ↦ cancelled. -/
+/-- **Quiescence – the code as it is now.**  For every step sequence after which every task that was ever created has
+finished – in whatever way – all registries are empty. -/
+theorem C14_quiescent_empty (ops : List (Op κ))
+    (hq : ∀ t, (run current ops).phase t = .none ∨ (run current ops).phase t = .done) :
+    (∀ t, (run current ops).u.ours t = false ∧ (run current ops).cb t = none ∧ (run current ops).hctx t = false ∧
+          (run current ops).u.entry t = false ∧ (run current ops).u.names t = []) ∧
+    (∀ k, (run current ops).u.owner k = none) :=
+  C14_quiescent_empty_partial current ops hq (Or.inl rfl)
+
+/-- **Result.**  A task whose callback loop was not left by an exception finishes with the outcome of its body:
+`ok v` ↦ `v`, an exception ↦ logged and `None`, cancelled ↦ cancelled. -/
 theorem C14_result (cfg : Cfg) (ops : List (Op κ)) (t : Task)
-    (hd : (run cfg ops).phase t = .done) (hl : (run cfg ops).leaked t = false) :
+    (hd : (run cfg ops).phase t = .done) (hb : (run cfg ops).bailed t = none) :
     (run cfg ops).result t = some (specResult (run cfg ops) t) :=
-  (invR_run cfg ops).result t hd hl
+  (invL_run cfg ops).res t hd hb
+
+/-- **The remaining excluded case, now harmless**: in the code as it is now the only exception that leaves a callback
+loop is a cancellation delivered inside a done-callback; the task then ends as *cancelled* (it was cancelled), the
+callbacks not yet started are skipped (`C14_callbacks_prefix`), and it is cleaned up like every other task. -/
+theorem C14_cancel_inside_callback (ops : List (Op κ)) (t : Task) (r : Res)
+    (hb : (run current ops).bailed t = some r) :
+    r = .cancelled ∧ (run current ops).result t = some .cancelled ∧ Clean (run current ops) t := by
+  obtain ⟨a, b, c⟩ := (invL_run current ops).bail t r hb
+  have hr : r = .cancelled := by
+    rcases c with c | ⟨_, _, c⟩
+    · exact c
+    · cases c
+  subst hr
+  exact ⟨rfl, b, C14_cleanup ops t a⟩
 
 /-- the unique-name maps stay mutually inverse through every schedule, aborted `finally`s included -/
 theorem C14_maps_inv (cfg : Cfg) (ops : List (Op κ)) (k : κ) (t : Task) :
     (run cfg ops).u.owner k = some t ↔ k ∈ (run cfg ops).u.names t :=
   ⟨fun e => ((invR_run cfg ops).maps.own k t e).1, (invR_run cfg ops).maps.names_own k t⟩
 
-/-- **Witness (#24): a task created without an evaluator context (service call) has no `task2cb` entry**, so
-`task.add_done_callback(task.current_task(), …)` inside it raises `KeyError` and registers nothing. -/
-theorem C14_cex_service_task_has_no_callback_entry :
-    let s := run current [.create 0 false false, .start 0, (.addCb 0 0 1 10 : Op Nat)]
-    s.errs = 1 ∧ s.cb 0 = none ∧
-    (run current [.create 0 true true, .start 0, (.addCb 0 0 1 10 : Op Nat)]).errs = 0 := by
+/-! ### regression theorems: the pre-fix configuration reproduces the fixed defects, the current one does not -/
+
+/-- #19 / C14-F1, fixed by /repo e4231d2.  Pre-fix: the first of two callbacks raises – the second never runs.
+Now: both run. -/
+theorem C14_regress_callback_raises_skips_rest :
+    let ops : List (Op Nat) := [.create 0 true true, .start 0, .addCb 0 0 1 10, .addCb 0 0 2 20,
+                                .endBody 0 (.ok 5), .cbBegin 0, .cbEnd 0 .raises, .cbBegin 0, .cbEnd 0 .ok, .cleanup 0]
+    (run preFix ops).phase 0 = .done ∧ specRan (run preFix ops) 0 = [(1, 10), (2, 20)] ∧
+    ranOf (run preFix ops) 0 = [(1, 10)] ∧ (run preFix ops).result 0 = some (.value 5) ∧
+    ranOf (run current ops) 0 = [(1, 10), (2, 20)] ∧ (run current ops).result 0 = some (.value 5) ∧
+    (run current ops).phase 0 = .done := by
   decide
 
-/-- Witness: `task.cancel(t)` of a task that was created but has not run its first segment raises `TypeError`
+/-- C14-F2, fixed by /repo f683cd7.  Pre-fix: a cancellation delivered inside a done-callback leaves the `finally`:
+the task stays in `our_tasks`, `task2cb`, `task2context` and keeps its unique name.  Now: same schedule, the task is
+cancelled and forgotten (the second callback is still skipped and the result is still `cancelled`). -/
+theorem C14_regress_cancel_during_callback_leaks_registries :
+    let ops : List (Op Nat) := [.create 0 true true, .start 0, .storeCtx 0, .unique 0 7 false, .addCb 0 0 1 10,
+                                .addCb 0 0 2 20, .endBody 0 (.ok 5), .cbBegin 0, .create 1 true true, .start 1,
+                                .cancel 1 (some 0), .reap, .cbEnd 0 .cancelled]
+    ((run preFix ops).phase 0 = .done ∧ (run preFix ops).leaked 0 = true ∧ (run preFix ops).u.ours 0 = true ∧
+     (run preFix ops).cb 0 ≠ none ∧ (run preFix ops).hctx 0 = true ∧ (run preFix ops).u.owner 7 = some 0) ∧
+    ((run current ops).phase 0 = .done ∧ (run current ops).leaked 0 = false ∧ (run current ops).u.ours 0 = false ∧
+     (run current ops).cb 0 = none ∧ (run current ops).hctx 0 = false ∧ (run current ops).u.owner 7 = none ∧
+     ranOf (run current ops) 0 = [(1, 10)] ∧ (run current ops).result 0 = some .cancelled) := by
+  decide
+
+/-- C14-F3, fixed by /repo 83f57a2.  Pre-fix: a done-callback that registers another callback on its own task makes
+the dict iterator raise `RuntimeError`; the remaining callback is skipped, nothing is cleaned.  Now: the loop runs over
+the snapshot – both registered callbacks run, the late one does not, the task ends with its value and is forgotten. -/
+theorem C14_regress_callback_mutates_dict_leaks :
+    let ops : List (Op Nat) := [.create 0 true true, .start 0, .addCb 0 0 1 10, .addCb 0 0 2 20, .endBody 0 (.ok 5),
+                                .cbBegin 0, .addCb 0 0 3 30, .cbEnd 0 .ok, .cbBegin 0, .cbEnd 0 .ok, .cleanup 0]
+    ((run preFix ops).phase 0 = .done ∧ (run preFix ops).leaked 0 = true ∧ (run preFix ops).u.ours 0 = true ∧
+     (run preFix ops).cb 0 ≠ none ∧ ranOf (run preFix ops) 0 = [(1, 10)] ∧
+     (run preFix ops).result 0 = some .error) ∧
+    ((run current ops).phase 0 = .done ∧ (run current ops).u.ours 0 = false ∧ (run current ops).cb 0 = none ∧
+     ranOf (run current ops) 0 = [(1, 10), (2, 20)] ∧ (run current ops).result 0 = some (.value 5)) := by
+  decide
+
+/-- #24 / C14-F4, fixed by /repo 48c341a + a0b69d9.  Pre-fix: a `@service` task is created without an evaluator
+context, has no `task2cb` entry, and `task.add_done_callback(task.current_task(), …)` inside it raises `KeyError`.
+Now the entry exists and the callback is registered. -/
+theorem C14_regress_service_task_has_no_callback_entry :
+    let go := fun (cfg : Cfg) =>
+      step cfg (step cfg (createService cfg (init : St Nat) 0) (.start 0)) (.addCb 0 0 1 10)
+    ((go preFix).errs = 1 ∧ (go preFix).cb 0 = none) ∧
+    ((go current).errs = 0 ∧ (go current).cb 0 = some [(1, 10)]) := by
+  decide
+
+/-! ### witnesses of what is still open -/
+
+/-- C14-F5 (open): `task.cancel(t)` of a task that was created but has not run its first segment raises `TypeError`
 (`our_tasks` is filled by `run_coro` itself), nothing is queued. -/
 theorem C14_cex_cancel_before_start_raises :
     let s := run current [.create 0 true true, .start 0, .create 1 true true, (.cancel 0 (some 1) : Op Nat)]
@@ -326,9 +404,9 @@ theorem C14_cex_cancel_before_start_raises :
                   (.cancel 0 (some 1) : Op Nat)]).u.reaperQ = [1] := by
   decide
 
-/-- **Witness: the one shared await.**  `C14_independent` says no life-cycle step of `a` changes `b`'s state – but
-the reaper `await`s every task it cancels, so while a cancelled task 0 is still inside a (sleeping) done-callback the
-reaper is busy and the cancellation that the unrelated task 1 has queued (here: `task.cancel()` of itself) is not
+/-- C14-F6 (open): **the one shared await.**  `C14_independent` says no life-cycle step of `a` changes `b`'s state –
+but the reaper `await`s every task it cancels, so while a cancelled task 0 is still inside a (sleeping) done-callback
+the reaper is busy and the cancellation that the unrelated task 1 has queued (here: `task.cancel()` of itself) is not
 delivered: `reap` is a no-op until task 0's `finally` is over. -/
 theorem C14_cex_reaper_serialises_cancellations :
     let pre : List (Op Nat) := [.create 0 true true, .start 0, .addCb 0 0 3 1, .create 2 true true, .start 2,
@@ -342,9 +420,9 @@ theorem C14_cex_reaper_serialises_cancellations :
 
 /-! non-vacuity -/
 example : let s := run current [.create 0 true true, .start 0, .storeCtx 0, .unique 0 7 false, .addCb 0 0 1 10,
-                                .addCb 0 0 2 20, .addCb 0 0 1 11, .removeCb 0 0 2, .endBody 0 .exc, .cbBegin 0, .cbEnd 0 .ok,
-                                (.cleanup 0 : Op Nat)]
-    s.phase 0 = .done ∧ s.leaked 0 = false ∧ s.touched 0 = false ∧ s.cbRaised 0 = false ∧
+                                .addCb 0 0 2 20, .addCb 0 0 1 11, .removeCb 0 0 2, .endBody 0 .exc, .cbBegin 0,
+                                .cbEnd 0 .raises, (.cleanup 0 : Op Nat)]
+    s.phase 0 = .done ∧ s.bailed 0 = none ∧ s.cbRaised 0 = true ∧
     ranOf s 0 = [(1, 11)] ∧ s.result 0 = some .noneVal ∧ s.u.owner 7 = none ∧ s.u.ours 0 = false := by
   decide
 
